@@ -81,7 +81,7 @@ def main():
         if a.suite:
             t0 = time.time()
             code, out = sh(
-                "/venv/bin/python -m pytest -q -p no:cacheprovider --timeout=900 --continue-on-collection-errors --no-cov -rfE 2>&1 | tail -40",
+                "/venv/bin/python -m pytest -q -p no:cacheprovider --timeout=900 --continue-on-collection-errors --no-cov -rfE -n 6 2>&1 | tail -40",
                 cwd=wt,
                 env=dict(os.environ, PYTHONPATH=os.path.join(wt, "src")),
                 timeout=3600,
